@@ -35,7 +35,7 @@ func (c cell) String() string {
 }
 func (c cell) key() string { return fmt.Sprintf("%s/%s/%s", c.role, c.cause, c.phase) }
 
-var causes = []string{"peer-eof", "read-error", "write-error", "peer-stops-reading", "client-close", "acceptor-close", "handler-stop", "unroutable-inbound-frame"}
+var causes = []string{"peer-eof", "read-error", "write-error", "peer-stops-reading", "client-close", "acceptor-close", "handler-stop", "unroutable-inbound-frame", "silent-peer-given-up"}
 var phases = []string{"before-logon", "mid-handshake", "established-idle", "inbound-burst", "inbound-stream", "inbound-requests", "resend-batch-in-flight", "outbound-burst", "during-logout", "after-logout-exchange", "established-after-sequence-gap-at-logon"}
 
 func peerCaused(cause string) bool {
@@ -43,16 +43,17 @@ func peerCaused(cause string) bool {
 }
 
 type outcome struct {
-	ce             cell
-	label          string
-	f              *rig.Full
-	l              *rig.Link
-	tFault         time.Time
-	setupFailed    string
-	sendBlocked    bool
-	sendersStuck   int32
-	pendingAtFault int
-	blockedSenders int
+	causeDidNotHappen bool
+	ce                cell
+	label             string
+	f                 *rig.Full
+	l                 *rig.Link
+	tFault            time.Time
+	setupFailed       string
+	sendBlocked       bool
+	sendersStuck      int32
+	pendingAtFault    int
+	blockedSenders    int
 }
 
 const N = 1 // heartbeat interval used everywhere here
@@ -276,6 +277,20 @@ func runCell(c *vk.Ctx, ce cell, idx int) *outcome {
 		f.Acc.Close()
 	case "handler-stop":
 		l.H.Stop()
+	case "silent-peer-given-up":
+		// nothing is done to the connection: the peer simply says nothing any more; the session probes it after N+1 s
+		// and, another N+1 s later, ends the connection itself (N=1). The settling time counts from that moment.
+		gaveUp := false
+		for w := 0; w < 3500 && !gaveUp; w++ {
+			gaveUp, _ = l.Conn.Closed()
+			if !gaveUp {
+				time.Sleep(2 * time.Millisecond)
+			}
+		}
+		if !gaveUp {
+			o.causeDidNotHappen = true // whether a silent peer is given up is C09's business
+		}
+		o.tFault = time.Now()
 	case "unroutable-inbound-frame":
 		// a complete frame (correct BodyLength and CheckSum) without a MsgType field: the handler's loop cannot
 		// route it and ends with an error, which ends the connection from the local side
@@ -332,6 +347,9 @@ func judge(c *vk.Ctx, o *outcome, p1, p2 []rig.GStack) {
 	}
 	if o.blockedSenders > 0 {
 		c.Count("scenarios_with_senders_in_flight", 1)
+	}
+	if o.causeDidNotHappen {
+		applicable = false
 	}
 	if !applicable {
 		c.Count("cells_where_the_cause_cannot_manifest", 1)
@@ -394,7 +412,7 @@ func judge(c *vk.Ctx, o *outcome, p1, p2 []rig.GStack) {
 
 func main() {
 	c := vk.Init("C13")
-	c.Rule("fault matrix: role {acceptor, initiator} x cause {peer EOF, read error, write error, peer stops reading (writes stall to the write deadline), Initiator.Close, Acceptor.Close, handler.Stop, a complete inbound frame without MsgType (the handler loop ends with an error), optionally followed by EOF} x phase {before logon, mid-handshake (cut inside the Logon bytes), established idle, inbound burst of 40 messages behind a slow application handler, steady inbound stream at a moderate rate, burst of 40 TestRequests (the handler loop itself is sending replies), a batch of 40 stored messages being retransmitted to a slowly reading peer, outbound burst from 4 sender goroutines, during logout, after a completed Logout exchange (connected, not logged on), established by a Logon whose sequence number is 4 ahead (a ResendRequest of this side is outstanding)} x handler/conn buffer {0,1,10} x cut position {message boundary, mid-field, inside the CheckSum field} x 3 timing offsets; quick: every (role,cause,phase) once, thorough: the full matrix. Plus a matrix of connections served for a bare handler without a session (nothing but the library's own teardown ends them): role x {peer EOF, read error, write error, owner Close, handler Stop} x {idle, inbound backlog behind a slow handler} x buffer sizes, and Initiator.Close before Serve. Oracle after the settling bound 3 s + 1.1 (N+1) with N=1: net.Conn.Close called; Serve returned; OnDisconnect/OnStopped/EventDisconnect for peer-caused ends; a Session.Send issued 1 s after the end returns within 3 s; senders that were inside Send are released; goroutine profile (debug=1, pprof label per scenario) shows no library-started goroutine in two samples 1 s apart. distinct = matrix cell; non-trivial = hand-offs were pending / senders in flight at fault time (measured) or a non-traffic phase")
+	c.Rule("fault matrix: role {acceptor, initiator} x cause {peer EOF, read error, write error, peer stops reading (writes stall to the write deadline), Initiator.Close, Acceptor.Close, handler.Stop, a complete inbound frame without MsgType (the handler loop ends with an error), optionally followed by EOF, the peer falling silent until the session itself gives it up (logged-on phases only)} x phase {before logon, mid-handshake (cut inside the Logon bytes), established idle, inbound burst of 40 messages behind a slow application handler, steady inbound stream at a moderate rate, burst of 40 TestRequests (the handler loop itself is sending replies), a batch of 40 stored messages being retransmitted to a slowly reading peer, outbound burst from 4 sender goroutines, during logout, after a completed Logout exchange (connected, not logged on), established by a Logon whose sequence number is 4 ahead (a ResendRequest of this side is outstanding)} x handler/conn buffer {0,1,10} x cut position {message boundary, mid-field, inside the CheckSum field} x 3 timing offsets; quick: every (role,cause,phase) once, thorough: the full matrix. Plus a matrix of connections served for a bare handler without a session (nothing but the library's own teardown ends them): role x {peer EOF, read error, write error, owner Close, handler Stop} x {idle, inbound backlog behind a slow handler} x buffer sizes, and Initiator.Close before Serve. Oracle after the settling bound 3 s + 1.1 (N+1) with N=1: net.Conn.Close called; Serve returned; OnDisconnect/OnStopped/EventDisconnect for peer-caused ends; a Session.Send issued 1 s after the end returns within 3 s; senders that were inside Send are released; goroutine profile (debug=1, pprof label per scenario) shows no library-started goroutine in two samples 1 s apart. distinct = matrix cell; non-trivial = hand-offs were pending / senders in flight at fault time (measured) or a non-traffic phase")
 	c.Assume("settling bound 5.2 s with N=1: the library's timer goroutines notice cancellation only at their next expiry, which is bounded and therefore allowed; the listener's accept loop is exempt until Acceptor.Close")
 	var cells []cell
 	for _, role := range []rig.Role{rig.Acceptor, rig.Initiator} {
@@ -405,6 +423,9 @@ func main() {
 			for pi, phase := range phases {
 				if cause == "unroutable-inbound-frame" && phase == "mid-handshake" {
 					continue // the frame would be glued to the cut Logon in front of it and be routed as that Logon
+				}
+				if cause == "silent-peer-given-up" && phase != "established-idle" && phase != "established-after-sequence-gap-at-logon" && phase != "inbound-burst" && phase != "inbound-requests" && phase != "outbound-burst" {
+					continue // the session gives up a peer only while it is logged on
 				}
 				if c.Thorough() {
 					for _, buf := range []int{0, 1, 10} {
